@@ -27,7 +27,7 @@ CLAIMS = {
   technique="TLA+-generated buffers/behaviours replayed under ASan+UBSan (sanitizers as trace instrumentation)"),
  "C05": dict(
   level="model_checking", design="§3.3 Bounds, §5 C05",
-  text="Bounds.tla: concrete semantics and the interval x congruence domain; BoundsMC model-checks the transfer-function theorem (Sound arguments => Sound result, tightness, constants exact) on small ranges. Binding: TLC (BoundsGen) generates expressions over every operator; the real front end compiles them; for EVERY subexpression the inferred (min, max, modulus, remainder) is recorded and TLC (BoundsCheck) enumerates all environments: soundness, congruence, constant => singleton, tightness for single-occurrence expressions; BoundsWide checks the 64-bit gate with BigInt interval arithmetic.",
+  text="Bounds.tla: concrete semantics and the interval x congruence domain; BoundsMC model-checks the transfer-function theorem (Sound arguments => Sound result, tightness, constants exact) on small ranges. Binding: TLC (BoundsGen) generates expressions over every operator; the real front end compiles them; for EVERY subexpression the inferred (min, max, modulus, remainder) is recorded and TLC (BoundsCheck) enumerates all environments: soundness, congruence, constant => singleton, tightness for single-occurrence expressions; BoundsWide checks the 64-bit gate with BigInt interval arithmetic; WideEval validates the VALUE the generated C++ computes for accepted 64-bit-scale expressions at landmark leaf values (TLC evaluates over BigInt), binding the back end's choice of C++ integer types and the arithmetic helpers.",
   note="Leaves of 2-5 bits so all environments are enumerable; wide family exact only for single-occurrence expressions.",
   technique="TLA+ abstract-interpretation spec + TLC validation of bounds recorded from the real IR"),
  "C06": dict(
